@@ -72,7 +72,7 @@ class ArraySchema(ComponentSchema[TDataObject]):
 
         self.register_default_backends(pd.DataFrame)
 
-        return st.series_strategy(
+        strategy = st.series_strategy(
             self.dtype,
             checks=self.checks,
             nullable=self.nullable,
@@ -80,6 +80,11 @@ class ArraySchema(ComponentSchema[TDataObject]):
             name=self.name,
             size=size,
         )
+        # a SeriesSchema also validates its index component
+        index = getattr(self, "index", None)
+        if index is not None:
+            strategy = st.set_pandas_index(strategy, index)
+        return strategy
 
     def example(self, size=None) -> TDataObject:
         """Generate an example of a particular size.
